@@ -19,6 +19,7 @@ type TxGen struct {
 	Fee     uint64
 	Stable  int // keys 0..Stable-1 never unstake or pause (keeps a committee alive)
 	memoCtr int
+	queue   []func(sm *fsm.StateMachine) ([]byte, string) // follow-ups that must come right after a transaction
 }
 
 func NewTxGen(r *Rng, nKeys int) *TxGen {
@@ -50,6 +51,11 @@ func (g *TxGen) amount(bal uint64) uint64 {
 
 // Next returns one transaction (bytes) and a short description.
 func (g *TxGen) Next(sm *fsm.StateMachine) ([]byte, string) {
+	if len(g.queue) > 0 {
+		f := g.queue[0]
+		g.queue = g.queue[1:]
+		return f(sm)
+	}
 	h := sm.Height()
 	i := g.R.Intn(g.NKeys)
 	k := BLSKey(i)
@@ -134,7 +140,34 @@ func (g *TxGen) Next(sm *fsm.StateMachine) ([]byte, string) {
 			{fsm.ParamSpaceVal, fsm.ParamMinimumStakeForValidators, []uint64{0, 500, 2000}},
 			{fsm.ParamSpaceGov, fsm.ParamDAORewardPercentage, []uint64{0, 5, 50}},
 		}[g.R.Intn(7)]
-		return mk("change-param")(fsm.NewChangeParamTxUint64(k.Priv, p.space, p.key, p.vals[g.R.Intn(len(p.vals))], h, h+5, 1, 1, g.Fee, h, g.memo()))
+		v := p.vals[g.R.Intn(len(p.vals))]
+		if g.R.Chance(30) { // the rejected-after-mutation combination, see below
+			p.space, p.key, v = fsm.ParamSpaceVal, fsm.ParamUnstakingBlocks, 0
+			if g.R.Bool() {
+				p.key = fsm.ParamMaxPauseBlocks
+			}
+		}
+		if v == 0 && p.space == fsm.ParamSpaceVal && (p.key == fsm.ParamUnstakingBlocks || p.key == fsm.ParamMaxPauseBlocks) {
+			// a parameter change that is rejected by Check(): right behind it, a transaction whose effect depends on that
+			// parameter (the rejected value must not be visible to it)
+			pause := p.key == fsm.ParamMaxPauseBlocks
+			g.queue = append(g.queue, func(sm *fsm.StateMachine) ([]byte, string) {
+				for j := g.Stable; j < g.NKeys; j++ {
+					kj := BLSKey(j)
+					vj, _ := sm.GetValidator(crypto.NewAddress(kj.Addr))
+					if vj == nil || len(vj.Address) == 0 || vj.UnstakingHeight != 0 || vj.MaxPausedHeight != 0 || (pause && vj.Delegate) {
+						continue
+					}
+					g.Counts["follow-up-after-rejected-param"]++
+					if pause {
+						return TxBytes(fsm.NewPauseTx(kj.Priv, crypto.NewAddress(kj.Addr), 1, 1, g.Fee, sm.Height(), g.memo())), fmt.Sprintf("pause right after rejected maxPauseBlocks=0 by key %d", j)
+					}
+					return TxBytes(fsm.NewUnstakeTx(kj.Priv, crypto.NewAddress(kj.Addr), 1, 1, g.Fee, sm.Height(), g.memo())), fmt.Sprintf("unstake right after rejected unstakingBlocks=0 by key %d", j)
+				}
+				return g.Next(sm)
+			})
+		}
+		return mk("change-param")(fsm.NewChangeParamTxUint64(k.Priv, p.space, p.key, v, h, h+5, 1, 1, g.Fee, h, g.memo()))
 	default:
 		// the invalid stream: signed by the wrong key, wrong chain, stale height, someone else's validator
 		g.Invalid++
